@@ -4,7 +4,7 @@
 (* (parent kind, child position, child kind) combination and three-level   *)
 (* nestings over a reduced alphabet - and prints each tree for the driver. *)
 (***************************************************************************)
-EXTENDS Eval, Json
+EXTENDS C06_Model, Json
 CONSTANT Tier
 VARIABLE tree
 
@@ -78,5 +78,10 @@ Init == tree \in Roots
 Next == /\ NHoles(tree) > 0
         /\ \E s \in PoolFor(FirstHoleTy(tree)) : tree' = FillFirst(tree, s)
 Complete == NHoles(tree) = 0
-Emit == Complete => PrintT(ToJson([e |-> tree]))
+\* design-level check: the transcribed printer and parser against the statement; the classes
+\* of failing trees are reported (implementation-level verdicts are the judge's)
+Emit == Complete =>
+    /\ PrintT(ToJson([e |-> tree]))
+    /\ LET m == ModelRoundTrip(tree) IN
+       (m = << >> \/ m = << "SKIP" >> \/ PrintT(ToJson([design |-> m, de |-> tree])))
 =============================================================================
